@@ -756,6 +756,14 @@ def helper_def(draw, idx, W):
     env = Env(spec, "seq")
     env.loc_vecs = list(params)
 
+    def hcond():
+        # run-time conditions over the parameters (constant conditions would be folded at compile time)
+        prm = st.sampled_from(params).map(lambda n: ["loc", n])
+        return st.one_of(
+            st.tuples(st.just("cmp"), st.sampled_from(["==", "!=", "<", ">="]), prm, st.integers(0, (1 << W) - 1).map(lambda v: ["const", v])).map(list),
+            st.tuples(prm, st.integers(0, W - 1)).map(lambda t: ["idx", t[0], t[1]]),
+        )
+
     def ret():
         # a helper never returns a bare parameter (that would alias the caller's object instead of computing a value)
         return vec_expr(env, 1).map(lambda e: {"k": "return", "e": e if e[0] not in ("loc", "in", "sig", "var") else ["inv", e]})
@@ -765,12 +773,15 @@ def helper_def(draw, idx, W):
             return ret().map(lambda r: [r])
         return st.one_of(
             ret().map(lambda r: [r]),
-            st.tuples(cond_expr(env, 0), branch(depth - 1), branch(depth - 1)).map(
+            st.tuples(hcond(), branch(depth - 1), branch(depth - 1)).map(
                 lambda t: [{"k": "if", "arms": [[t[0], t[1]]], "else": t[2]}]),
-            st.tuples(cond_expr(env, 0), branch(depth - 1), ret()).map(
+            st.tuples(hcond(), branch(depth - 1), ret()).map(
                 lambda t: [{"k": "if", "arms": [[t[0], t[1]]], "else": None}, t[2]]),
             # a branch without return next to a branch with one, then a common return (fall-through paths)
-            st.tuples(cond_expr(env, 0), vec_expr(env, 1), cond_expr(env, 0), ret(), ret()).map(
+            st.tuples(hcond(), vec_expr(env, 1), hcond(), ret(), ret()).map(
+                lambda t: [{"k": "if", "arms": [[t[0], [{"k": "bind", "bind": "hl0", "e": ["inv", t[1]]}]], [t[2], [t[3]]]],
+                            "else": None}, t[4]]),
+            st.tuples(hcond(), vec_expr(env, 1), hcond(), ret(), ret()).map(
                 lambda t: [{"k": "if", "arms": [[t[0], [{"k": "bind", "bind": "hl0", "e": ["inv", t[1]]}]], [t[2], [t[3]]]],
                             "else": None}, t[4]]),
         )
